@@ -35,6 +35,10 @@ roots (so the driver can evaluate it at `Rat`) -/
 def cosineParts [Add α] [Mul α] [NatCast α] (a b : List α) : α × α × α :=
   (vsum (vmul a b), vsum (vsquare a), vsum (vsquare b))
 
+/-- what `mean` computed on the pinned tree: the SIGNED mean of first minus second argument (kept to state why the
+repair exists) -/
+def pinnedMean [Add α] [Sub α] [Div α] [NatCast α] (a b : List α) : α := vmean (vsub a b)
+
 /-- what `cosine_similarity` computed on the pinned tree: `-np.sum(norm(y_pred, 2) * norm(y_true, 2))`, minus the
 PRODUCT of the norms (kept to state why the repair exists) -/
 def pinnedCosine [Add α] [Mul α] [Neg α] [NatCast α] [HasSqrt α] (a b : List α) : α := -(norm2 a * norm2 b)
@@ -88,6 +92,19 @@ caller gave for the i-th NAME of `p0` (or the default), whatever the order of th
 def fillBounds {α : Type} (dflt : α × α) (bounds : List (String × (α × α))) (names : List String) :
     List (α × α) :=
   names.map fun n => (bounds.lookup n).getD dflt
+
+/-- the boxes `LocalScipyMinimizer` hands to scipy, one per entry of `p0` (a bound may be `None`): the caller's box for a
+name that has one; otherwise the default box — with `onlyIfInside` (read from the source) only when the START VALUE lies in
+it, and no box at all (`(None, None)`) when it does not, so that no start value is ever moved onto a box the caller did not
+ask for -/
+def fillBoundsLocal {α : Type} [LE α] [DecidableLE α] (onlyIfInside : Bool) (dflt : α × α)
+    (bounds : List (String × (α × α))) (p0 : List (String × α)) : List (Option α × Option α) :=
+  p0.map fun nv =>
+    match bounds.lookup nv.1 with
+    | some b => (some b.1, some b.2)
+    | none =>
+      if !onlyIfInside || (decide (dflt.1 ≤ nv.2) && decide (nv.2 ≤ dflt.2)) then (some dflt.1, some dflt.2)
+      else (none, none)
 
 /-- the tail of `fit.steady_state` / `time_course` / `protocol_time_course`:
 `match minimizer(fn, p0, bounds).value: case OptimisationState(parameters, residual): Fit(...)`. -/
